@@ -200,6 +200,24 @@ def shape_records(tag, j, g, rng):
         if len(stat):
             r, res = _do(f)
             add("stat_summaries", res, r, st=st, k=k)
+    # histograms of the degree / edge-size statistics (linear binning; dyadic bin numbers and integer
+    # edges keep the float bin edges exact)
+    for k, stat in enumerate((H.nodes.degree, H.edges.size)):
+        vals = [int(v) for v in stat.aslist()]
+        if not vals:
+            continue
+        lo_, hi_ = min(vals), max(vals)
+        for bins in (1, 2, 4, 8, [lo_, hi_ + 1], [lo_ - 1, lo_, hi_ + 1, hi_ + 3], list(range(lo_, hi_ + 2))):
+            for dens in (False, True):
+                if dens and (lo_ == hi_ and isinstance(bins, int)):
+                    continue  # zero-width bin: the density is not defined
+                def f(stat=stat, bins=bins, dens=dens):
+                    df = stat.ashist(bins=bins if isinstance(bins, int) else list(bins), bin_edges=True, density=dens)
+                    return [[frac(x) for x in df["bin_center"]], [frac(x) for x in df["value"]], [frac(x) for x in df["bin_lo"]],
+                            [frac(x) for x in df["bin_hi"]], [df.attrs["ylabel"]]]
+                r, res = _do(f)
+                add("ashist", res, r, s=vals, k=bins if isinstance(bins, int) else NONE, ids=bins if not isinstance(bins, int) else [],
+                    b=[dens])
     # parametrised global measures
     for fn in ("density", "incidence_density"):
         for k in (NONE, 0, 1, 2, 3, 4):
